@@ -33,7 +33,10 @@ def _known():
 def _etree(world, name):
     if name[0] == "n":
         return world.node_tree(int(name[1:]))
-    return S.tree_of(world.objs[name])
+    try:
+        return S.tree_of(world.objs[name])
+    except (S.Cyclic, RecursionError):
+        return ("Unwalkable", name)
 
 
 def metas(world):
@@ -174,10 +177,15 @@ def group_status(entries):
             nums.append((v, label))
         else:
             excs.append((o[1], label))
-    if any(c != "DomainError" for c, _ in excs):
-        return "discard:other-exception", None
+    if any(c in ("OverflowError",) for c, _ in excs):
+        return "discard:overflow-exception", None
+    classes = sorted({c for c, _ in excs})
     if nums and excs:
         return "definedness", (nums[0], excs[0])
+    if len(classes) > 1:
+        # e.g. DomainError on one route, CoordinateMissing / arity Exception on another: points in this
+        # workload supply all variables of the expression, so only DomainError is a legitimate failure
+        return "definedness", ((classes[0], excs[0][1]), (classes[1], excs[-1][1]))
     if nums:
         lo = min(nums)
         hi = max(nums)
